@@ -1238,16 +1238,41 @@ static void gen_stmt(Node *node) {
       char *ax = (node->cond->ty->size == 8) ? "%rax" : "%eax";
       char *di = (node->cond->ty->size == 8) ? "%rdi" : "%edi";
 
+      // Case constants are converted to the type of the controlling
+      // expression. A 64-bit constant that is not a sign-extended
+      // 32-bit immediate has to go through a register.
+      long begin = n->begin;
+      long span = n->end - n->begin;
+      if (node->cond->ty->size != 8) {
+        begin = (int)begin;
+        span = (int)span;
+      }
+
       if (n->begin == n->end) {
-        println("  cmp $%ld, %s", n->begin, ax);
+        if (begin == (int)begin) {
+          println("  cmp $%ld, %s", begin, ax);
+        } else {
+          println("  mov $%ld, %%rdi", begin);
+          println("  cmp %%rdi, %%rax");
+        }
         println("  je %s", n->label);
         continue;
       }
 
       // [GNU] Case ranges
       println("  mov %s, %s", ax, di);
-      println("  sub $%ld, %s", n->begin, di);
-      println("  cmp $%ld, %s", n->end - n->begin, di);
+      if (begin == (int)begin) {
+        println("  sub $%ld, %s", begin, di);
+      } else {
+        println("  mov $%ld, %%rdx", begin);
+        println("  sub %%rdx, %%rdi");
+      }
+      if (span == (int)span) {
+        println("  cmp $%ld, %s", span, di);
+      } else {
+        println("  mov $%ld, %%rdx", span);
+        println("  cmp %%rdx, %%rdi");
+      }
       println("  jbe %s", n->label);
     }
 
